@@ -687,6 +687,8 @@ func RunPath(cfg *Config, sess *smt.Session, prefix []Decision) (res *PathResult
 		side:        map[*value]any{},
 		sideAny:     map[any]any{},
 		hooks:       map[string]value{},
+		ufUsed:      map[string]bool{},
+		ufConcrete:  map[string][]ufFact{},
 	}
 	if cfg.Trace {
 		i.mode |= EnableTracing
